@@ -23,6 +23,11 @@ Proof. vm_compute. reflexivity. Qed.
 Lemma sites_nonempty : (30 <=? List.length map_range_sites)%nat = true /\ (200 <=? map_range_files_scanned)%nat = true.
 Proof. split; vm_compute; reflexivity. Qed.
 
+(* library code never reads the wall clock, the global random source or process identity directly: everything
+   time- or chance-dependent goes through the injectable generators the property lists as inputs *)
+Lemma no_ambient_sources : forallb (ambient_ok ambient_allowed) ambient_calls = true.
+Proof. vm_compute. reflexivity. Qed.
+
 (* the versions passed to registerMigration are pairwise different, so `version -> migration` is a function and
    sorting the collected versions by LessThan separates them *)
 Lemma registered_versions_distinct : NoDup registered_versions.
